@@ -428,11 +428,18 @@ PROPS["C11"]["rule"] += " " + COMP_RULE
 PROPS["C09"]["lean_modules"].append("GoSup.Props.C09L")
 PROPS["C09"]["theorems"] += ["GoSup.Props.C09L.c09_none_survive", "GoSup.Props.C09L.c09_one_live_generation",
                              "GoSup.Props.C09L.c09_no_nil_context", "GoSup.Props.C09L.stuck_step",
-                             "GoSup.Props.C09L.c09_f1_stuck_forever", "GoSup.Props.C09L.c09_f1_reachable"]
+                             "GoSup.Props.C09L.c09_f1_stuck_forever", "GoSup.Props.C09L.c09_f1_reachable",
+                             "GoSup.Props.C09L.c09_running_is_configured"]
+PROPS["C10"]["lean_modules"].append("GoSup.Props.C09L")
+PROPS["C10"]["theorems"] += ["GoSup.Props.C09L.c10_failed_is_real", "GoSup.Props.C09L.c10_failure_taken"]
+PROPS["C10"]["level_text"] += (" Concurrent model CompLts, every interleaving: Run() returns ErrRunnableFailed naming a child only if "
+                               "a Run of that child returned a non-cancellation error (c10_failed_is_real); a pending child error "
+                               "enables the failure arm of Run's select (c10_failure_taken).")
 PROPS["C09"]["level_text"] = (
     "Concurrent model CompLts (one action per critical section of Run/boot/stopAllRunnables/Reload/reloadWithRestart, children "
     "as arbitrary processes, any number of reloads and generations): invariant proofs over every reachable state, i.e. every "
-    "interleaving - once Run() has returned the context of every generation of children ever booted is done, also of one booted "
+    "interleaving - while Run waits in its select and no reload is under way the children launched in the one live generation are "
+    "the configured ones by the code's membership criterion and every other generation is cancelled; once Run() has returned the context of every generation of children ever booted is done, also of one booted "
     "afterwards by an overtaken reload; at most one generation is alive at any time; boot never gets a nil context; the recorded "
     "deadlock C09-F1 is a reachable configuration of the model that no action leaves (Run() and Reload() never return). "
     "Operation-level model CompSeq: Running and not returned => running children = configured children, for histories of any "
